@@ -54,7 +54,7 @@ def mk_cfg(cfg, fc, order=None):
                          facilities_origin=FacilitiesOrigin.CREATE if cfg.get('fac', 'create') == 'create' else FacilitiesOrigin.IMPORT,
                          copyright=cfg.get('copyright', 'Copyright (c) X'),
                          support_files_ns_prefix=None if cfg.get('sf_prefix') is None else NamespaceIds(list(cfg['sf_prefix'])),
-                         creator_info=cfg.get('creator'))
+                         creator_info=cfg.get('creator'), verbose=bool(cfg.get('verbose', False)))
 
 
 _shared_builder = Builder()
